@@ -80,6 +80,7 @@ type Val struct {
 	Recv   *Val
 	NonNil bool
 	Pos    token.Pos
+	Canon  *Val // named constants: the value-interned constant used for relation facts
 }
 
 func (v *Val) String() string {
@@ -375,10 +376,10 @@ type State struct {
 
 // Relation bits.
 const (
-	RLt uint8 = 1
-	REq uint8 = 2
-	RGt uint8 = 4
-	RAny      = RLt | REq | RGt
+	RLt  uint8 = 1
+	REq  uint8 = 2
+	RGt  uint8 = 4
+	RAny       = RLt | REq | RGt
 )
 
 func (s *State) clone() *State {
